@@ -317,7 +317,7 @@ pub fn check(s: &Scenario) -> CheckResult {
         Scenario::CallerCompiles { no_std, features } => caller_compiles(*no_std, *features),
         Scenario::LockHeld { variant } => {
             lock_held(*variant)?;
-            Ok(CaseInfo::new(true, hash_of(&("lock-held", variant % 4))).class("borrow holds its lock"))
+            Ok(CaseInfo::new(true, hash_of(&("lock-held", variant % 8))).class("borrow holds its lock"))
         }
         Scenario::RrtkBuildCompiles { rrtk_build } => {
             let b = if *rrtk_build % 3 == 1 { 1 } else { 2 };
@@ -401,9 +401,131 @@ fn ptr_lock_held(variant: u8) -> Result<(), Violation> {
     }
     Ok(())
 }
+struct Flagged {
+    v: i64,
+    dropped: Arc<std::sync::atomic::AtomicU32>,
+}
+impl Drop for Flagged {
+    fn drop(&mut self) {
+        self.dropped.fetch_add(1, std::sync::atomic::Ordering::SeqCst);
+    }
+}
+impl LockedVal for Flagged {
+    fn val(&self) -> i64 {
+        self.v
+    }
+    fn put(&mut self, v: i64) {
+        self.v = v;
+    }
+}
+/// `to_dyn!` does not list the Arc variants today (it panics `unimplemented!`). Should it ever accept one, the result must be
+/// what the property says of every listed variant: the same object, kept alive by the converted Reference alone.
+fn arc_to_dyn_if_listed() -> Result<(), Violation> {
+    use std::sync::atomic::Ordering::SeqCst;
+    for which in 0..2 {
+        let name = if which == 0 { "ArcRwLock" } else { "ArcMutex" };
+        let dropped = Arc::new(std::sync::atomic::AtomicU32::new(0));
+        let target = Flagged { v: 5, dropped: dropped.clone() };
+        let plain: Reference<Flagged> = if which == 0 { Reference::from_arc_rw_lock(Arc::new(RwLock::new(target))) } else { Reference::from_arc_mutex(Arc::new(Mutex::new(target))) };
+        let keep = plain.clone();
+        let converted = catch(move || -> Reference<dyn LockedVal> { to_dyn!(LockedVal, plain) });
+        let converted = match converted {
+            Err(_) => continue, // not a listed variant
+            Ok(c) => c,
+        };
+        ensure!(dropped.load(SeqCst) == 0, format!("C17/to_dyn/{}/target-dropped", name), "to_dyn! accepted a {} Reference and the target was dropped during the conversion", name);
+        keep.borrow_mut().put(6);
+        ensure!(converted.borrow().val() == 6, format!("C17/to_dyn/{}/alias", name), "a write through the original {} Reference is not seen through its to_dyn! conversion", name);
+        drop(keep);
+        // the converted Reference is now the only handle: the target must still be alive (checked before touching it)
+        if dropped.load(SeqCst) != 0 {
+            std::mem::forget(converted);
+            return Err(Violation::new(format!("C17/to_dyn/{}/target-dropped", name), format!("to_dyn! accepted a {} Reference, but its result does not keep the target alive: the target was dropped while the converted Reference still exists", name)));
+        }
+        converted.borrow_mut().put(7);
+        ensure!(converted.borrow().val() == 7, format!("C17/to_dyn/{}/alias", name), "a write through the converted {} Reference is lost", name);
+        drop(converted);
+        ensure!(dropped.load(SeqCst) == 1, format!("C17/to_dyn/{}/leak-or-double-drop", name), "after the last handle of a converted {} Reference was dropped the target was dropped {} times", name, dropped.load(SeqCst));
+    }
+    Ok(())
+}
+/// An Rc<RefCell>-backed Reference hands out a mutable borrow only while no other borrow is alive (it refuses by panicking,
+/// as RefCell does): otherwise a shared borrow would watch its target change - or be freed - under it.
+fn rc_exclusive() -> Result<(), Violation> {
+    let r = rc_ref_cell_reference(5i64);
+    let c = r.clone();
+    {
+        let held = r.borrow();
+        let c2 = c.clone();
+        let got = catch(move || {
+            let mut m = c2.borrow_mut();
+            *m += 1;
+        });
+        ensure!(got.is_err(), "C17/lock-held/RcRefCell", "while a Borrow of an Rc<RefCell>-backed Reference is alive, borrow_mut() through a clone handed out a mutable borrow");
+        ensure!(*held == 5, "C17/lock-held/RcRefCell", "a shared borrow saw its target change to {}", *held);
+    }
+    {
+        let mut held = r.borrow_mut();
+        *held = 6;
+        let (c2, c3) = (c.clone(), c.clone());
+        let got_shared = catch(move || *c2.borrow());
+        let got_mut = catch(move || {
+            let mut m = c3.borrow_mut();
+            *m += 1;
+        });
+        ensure!(got_shared.is_err() && got_mut.is_err(), "C17/lock-held/RcRefCell", "while a BorrowMut of an Rc<RefCell>-backed Reference is alive, a clone handed out another borrow (shared: {}, mutable: {})", got_shared.is_ok(), got_mut.is_ok());
+    }
+    ensure!(*c.borrow() == 6, "C17/lock-held/RcRefCell", "after the borrows ended the target reads {}", *c.borrow());
+    Ok(())
+}
+/// A reader on another thread, using its own Reference over the same lock, waits for a live mutable borrow to end and then sees
+/// the write; it does not panic and does not read early.
+fn readers_wait() -> Result<(), Violation> {
+    for which in 0..4 {
+        let name = ["ArcRwLock", "ArcMutex", "PtrRwLock", "PtrMutex"][which];
+        let arc_rw = Arc::new(RwLock::new(1i64));
+        let arc_mx = Arc::new(Mutex::new(1i64));
+        let ptr_rw: &'static RwLock<i64> = Box::leak(Box::new(RwLock::new(1i64)));
+        let ptr_mx: &'static Mutex<i64> = Box::leak(Box::new(Mutex::new(1i64)));
+        let make = move || -> Reference<i64> {
+            match which {
+                0 => Reference::from_arc_rw_lock(arc_rw.clone()),
+                1 => Reference::from_arc_mutex(arc_mx.clone()),
+                2 => unsafe { Reference::from_ptr_rw_lock(ptr_rw as *const RwLock<i64>) },
+                _ => unsafe { Reference::from_ptr_mutex(ptr_mx as *const Mutex<i64>) },
+            }
+        };
+        let writer = make();
+        let mut held = writer.borrow_mut();
+        let started = Arc::new(std::sync::atomic::AtomicBool::new(false));
+        let started2 = started.clone();
+        let make2 = make.clone();
+        let reader = std::thread::spawn(move || {
+            let r = make2();
+            started2.store(true, std::sync::atomic::Ordering::SeqCst);
+            let v = *r.borrow();
+            v
+        });
+        while !started.load(std::sync::atomic::Ordering::SeqCst) {
+            std::thread::yield_now();
+        }
+        std::thread::sleep(std::time::Duration::from_millis(15));
+        *held = 42;
+        drop(held);
+        match reader.join() {
+            Ok(v) => ensure!(v == 42, format!("C17/reader-waits/{}", name), "a reader on another thread read {} while a mutable borrow that then wrote 42 was still alive", v),
+            Err(_) => return Err(Violation::new(format!("C17/reader-waits/{}", name), format!("borrow() through a {} Reference on another thread panicked while a mutable borrow was alive instead of waiting for it", name))),
+        }
+    }
+    Ok(())
+}
 pub fn lock_held(variant: u8) -> Result<(), Violation> {
-    if variant % 4 >= 2 {
-        return ptr_lock_held(variant);
+    match variant % 8 {
+        2 | 3 => return ptr_lock_held(variant % 4),
+        4 => return arc_to_dyn_if_listed(),
+        5 => return rc_exclusive(),
+        6 | 7 => return readers_wait(),
+        _ => {}
     }
     if variant % 2 == 0 {
         let arc = Arc::new(Mutex::new(5i64));
@@ -567,7 +689,7 @@ impl Property for C17 {
         for rrtk_build in [1u8, 2] {
             sink(Scenario::RrtkBuildCompiles { rrtk_build });
         }
-        for variant in [0u8, 1, 2, 3] {
+        for variant in [0u8, 1, 2, 3, 4, 5, 6] {
             sink(Scenario::LockHeld { variant });
         }
         // every variant x every pair of ops (length-2 prefixes) followed by a fixed tail, in all three crates
